@@ -246,7 +246,7 @@ def _saver(ctx, cfg):
     ctx.under_contract("ModelSaver.__init__", "ModelSaver._save", "ModelSaver.on_train_start", "ModelSaver.on_epoch_end")
     ctx.stub("nn_state.save", "torch.save")
     try:
-        for meta_kind in ("callable", "dict", "none"):
+        for meta_kind in ("callable", "dict", "none", "dict filled after construction"):
             for only in (False, True):
                 for initial in (True, False):
                     def run(meta_kind=meta_kind, only=only, initial=initial):
@@ -258,8 +258,12 @@ def _saver(ctx, cfg):
                         def mfn(state, ep):
                             mcalls.append((state, ep))
                             return {"epoch": ep}
-                        meta = {"callable": mfn, "dict": md, "none": None}[meta_kind]
+                        if meta_kind == "dict filled after construction":
+                            md = {}                   # the caller's dictionary is empty when the callback is built ...
+                        meta = {"callable": mfn, "dict": md, "none": None, "dict filled after construction": md}[meta_kind]
                         sv = SB(period, tmp, "model_{}.pt", save_initial=initial, metadata=meta, metadata_only=only)
+                        if meta_kind == "dict filled after construction":
+                            md["note"] = "x"          # ... and filled before training starts: what is stored is what it holds when saved
                         st = State()
                         sv.on_train_start(st)
                         writes0 = list(st.saved) + list(saved_meta)
@@ -267,7 +271,7 @@ def _saver(ctx, cfg):
                         vc.check("ModelSaver/initial save iff save_initial" + tag, (len(writes0) == 1) == initial)
                         if initial:
                             p0 = os.path.join(sv.path, "model_initial.pt")
-                            want_md = {"epoch": 0} if meta_kind == "callable" else (md if meta_kind == "dict" else {})
+                            want_md = {"epoch": 0} if meta_kind == "callable" else (md if meta_kind.startswith("dict") else {})
                             if only:
                                 vc.check("ModelSaver/initial: metadata only, named 'initial'" + tag, saved_meta == [(want_md, p0)] and st.saved == [])
                             else:
@@ -286,7 +290,7 @@ def _saver(ctx, cfg):
                                 vc.check("ModelSaver/callable metadata evaluated once for (state, epoch)" + tag, len(mcalls) == 1 and mcalls[0][0] is st and mcalls[0][1] is epoch)
                                 want_md = {"epoch": epoch}
                             else:
-                                want_md = md if meta_kind == "dict" else {}
+                                want_md = md if meta_kind.startswith("dict") else {}
                             if only:
                                 vc.check("ModelSaver/metadata_only writes only the metadata to file_name.format(epoch)" + tag,
                                          st.saved == [] and len(saved_meta) == 1 and saved_meta[0][1] == path and saved_meta[0][0] == want_md)
@@ -408,6 +412,18 @@ def _accessors(ctx, cfg):
                     vc.check("MetricEvaluator/unknown name raises AttributeError[L=%d]" % L, False)
                 except AttributeError:
                     vc.check("MetricEvaluator/unknown name raises AttributeError[L=%d]" % L, True)
+            # metric names are the caller's choice: names that are also attributes / properties / methods of the evaluator
+            # are looked up in the records when subscripted, and by get_value
+            clash = ["last", "epochs", "names", "period", "log", "past_values", "metrics", "verbose", "get_value", "clear_history"]
+            mc = MetricEvaluator(2, {nm: None for nm in clash})
+            hc = [(vc.fresh_int("ce%d" % i), {nm: vc.fresh_real("c_%s%d" % (nm, i)) for nm in clash}) for i in range(L)]
+            mc.past_values = list(hc)
+            for nm in clash:
+                arr2 = mc[nm]
+                vc.check("MetricEvaluator/item access for a metric named like an attribute of the evaluator gives the recorded values[%s L=%d]" % (nm, L),
+                         np.shape(arr2) == (L,) and all(arr2[i] is hc[i][1][nm] for i in range(L)), "got %r" % (type(arr2).__name__,))
+                if L:
+                    vc.check("MetricEvaluator/get_value for a metric named like an attribute[%s L=%d]" % (nm, L), mc.get_value(nm) is hc[-1][1][nm])
             me.clear_history()
             vc.check("MetricEvaluator/clear_history empties history and last[L=%d]" % L, len(me) == 0 and me.last == {} and me.past_values == [])
             oe = ObservableEvaluator(3, [SigmaZ(), SigmaX()])
@@ -439,6 +455,23 @@ def _accessors(ctx, cfg):
                     vc.check("ObservableEvaluator/unknown observable raises AttributeError[L=%d]" % L, False)
                 except AttributeError:
                     vc.check("ObservableEvaluator/unknown observable raises AttributeError[L=%d]" % L, True)
+            # observables renamed by the caller to something that is also an attribute of the evaluator
+            oz, ox = SigmaZ(), SigmaX()
+            oz.name, ox.name = "period", "last"
+            oc = ObservableEvaluator(3, [oz, ox])
+            och = [(vc.fresh_int("oce%d" % i), {nm: {"mean": vc.fresh_real("cm%s%d" % (nm, i)), "variance": vc.fresh_real("cv%s%d" % (nm, i)),
+                                                     "std_error": vc.fresh_real("cs%s%d" % (nm, i)), "num_samples": 10} for nm in ("period", "last")}) for i in range(L)]
+            oc.past_values = list(och)
+            for nm in ("period", "last"):
+                so = oc[nm]
+                vc.check("ObservableEvaluator/item access for an observable named like an attribute of the evaluator gives its statistics[%s L=%d]" % (nm, L),
+                         isinstance(so, ObservableStatistics) and so.data == [h[1][nm] for h in och], type(so).__name__)
+                if L and isinstance(so, ObservableStatistics):
+                    for stat in ("mean", "variance", "std_error", "data", "num_samples"):
+                        if stat in ("data",):
+                            continue
+                        a3 = so[stat]
+                        vc.check("ObservableStatistics/item access[%s %s L=%d]" % (nm, stat, L), np.shape(a3) == (L,) and (stat == "num_samples" or all(a3[i] is och[i][1][nm][stat] for i in range(L))))
             oe.clear_history()
             vc.check("ObservableEvaluator/clear_history[L=%d]" % L, len(oe) == 0 and oe.last == {})
     vc.explore(run, "accessors")
